@@ -70,10 +70,12 @@ class Summary(object):
         self.heap = {}         # obj -> set(obj)   (only P:/G:/U/F: rooted keys exported)
         self.copy = {}         # obj -> set(obj)
         self.size = 0
+        self.defaults = None   # location of a reachable `X = &defaultMemoryManager` (own or in a callee)
+        self.mgr_use = set()   # manager parameters whose entry value may be the receiver of a manager call
 
     def measure(self):
         return (len(self.effects), len(self.ret), sum(len(v) for v in self.heap.values()) + len(self.heap),
-                sum(len(v) for v in self.copy.values()))
+                sum(len(v) for v in self.copy.values()), self.defaults is not None, len(self.mgr_use))
 
 
 def is_ptr_type(t):
@@ -99,6 +101,8 @@ class FuncAnalysis(object):
         self.effects = {}
         self.ret = set()
         self.calls_ctx = {}
+        self.defaults = None
+        self.mgr_use = set()
         for p in f.params:
             self.heap[('L:' + p, ())] = {('P:' + p, ())}
         self.facts, self.dom = eng.facts(f)
@@ -528,6 +532,13 @@ class FuncAnalysis(object):
                 if i.op == 'assign':
                     targets = self.lv(i.dst)
                     dty = i.dst.ty or ''
+                    if self.defaults is None and 'UriMemoryManager' in dty:
+                        sv = strip_casts(i.src)
+                        if sv.k == 'un' and sv.v == '&' and strip_casts(sv.c[0]).k == 'ref' \
+                                and strip_casts(sv.c[0]).v == 'defaultMemoryManager':
+                            trig = i.dst.v if (i.dst.k == 'ref' and i.dst.v in f.param_types) else None
+                            self.defaults = (f.name, i.loc, trig)
+                            ch = True
                     nonlocal_t = [t for t in targets if t[0][0] != 'L']
                     if nonlocal_t:
                         if guards is None:
@@ -573,6 +584,12 @@ class FuncAnalysis(object):
         guards = self.owner_guards(b)
         if mc is not None:
             member = mc[0]
+            rv = strip_casts(mc[1])
+            if rv.k == 'ref' and rv.v in f.param_types and rv.v not in self.mgr_use:
+                # receiver is (a possibly re-assigned) manager parameter
+                if self.assigned.get(rv.v, 0) == 0 or True:
+                    self.mgr_use.add(rv.v)
+                    ch = True
             if member in ('malloc', 'calloc'):
                 fresh = ('F:%s:%s' % (f.name, i.loc[1] if i.loc else '?'), ())
                 ch |= self.store(dst_t, {fresh})
@@ -621,6 +638,30 @@ class FuncAnalysis(object):
             for p, a in zip(callee.params, i.args):
                 amap[p] = self.pts(a)
                 ahandles[p] = self.arg_handles(a)
+            if summ.defaults is not None and self.defaults is None:
+                trig = summ.defaults[2]
+                fires = True
+                if trig is not None and trig in callee.params and callee.params.index(trig) < len(i.args):
+                    av = i.args[callee.params.index(trig)]
+                    vv = self.value_of(av)
+                    if vv == 0:
+                        fires = True
+                    elif vv is not None:
+                        fires = False
+                    else:
+                        sv = strip_casts(av)
+                        # forwarding the caller's own manager variable: the callee defaults only if we were
+                        # handed NULL ourselves, which is this function's own (checked) business
+                        fires = not (sv.k == 'ref' and 'UriMemoryManager' in (sv.ty or ''))
+                if fires:
+                    self.defaults = (summ.defaults[0], summ.defaults[1], None)
+                    ch = True
+            for p, a in zip(callee.params, i.args):
+                if p in summ.mgr_use:
+                    av = strip_casts(a)
+                    if av.k == 'ref' and av.v in f.param_types and av.v not in self.mgr_use:
+                        self.mgr_use.add(av.v)
+                        ch = True
             for e in list(summ.effects.values()):
                 root = e.obj[0]
                 g = set()
@@ -794,6 +835,8 @@ class FuncAnalysis(object):
             if n > 200:
                 raise AnalysisBroken('effect analysis did not converge in %s' % self.f.name)
         s = Summary()
+        s.defaults = self.defaults
+        s.mgr_use = set(self.mgr_use)
         s.effects = dict(self.effects)
         s.ret = set(o for o in self.ret if o[0][0] != 'L')
         for k, v in self.heap.items():
